@@ -422,7 +422,11 @@ def add_mime_diff(key, avalue, bvalue, diffbuilder):
     mimetype = key.lower()
     if isinstance(avalue, str) and isinstance(bvalue, str) and avalue == bvalue:
         return
-    if any(mimetype.startswith(tm) for tm in _split_mimes):
+    # JSON mimetypes can hold any JSON value; only containers and strings
+    # of the same kind can be diffed, anything else is replaced
+    diffable = any(isinstance(avalue, t) and isinstance(bvalue, t)
+                   for t in (list, dict, str))
+    if diffable and any(mimetype.startswith(tm) for tm in _split_mimes):
         dd = diff(avalue, bvalue)
         if dd:
             diffbuilder.patch(key, dd)
